@@ -156,7 +156,7 @@ class World:
                 seam(mod, n)
         self.ns = ShmNamespace()
         self.files: dict[str, bytes] = {}
-        self.clock = 1000
+        self.clock = 1_700_000_000 * 10**9  # a realistic epoch in ns: unit slips (seconds vs ns) must show
         self.rd = 0
         w = self
         nomp = types.SimpleNamespace(resource_tracker=types.SimpleNamespace(unregister=lambda *a: None))
@@ -172,7 +172,9 @@ class World:
             w.clock += 1
             return w.clock
 
-        dataset.time = types.SimpleNamespace(time_ns=time_ns)
+        # the whole clock interface on the one virtual clock (a tree that reads seconds must see the same time)
+        dataset.time = types.SimpleNamespace(time_ns=time_ns, time=lambda: time_ns() / 1e9, monotonic_ns=time_ns,
+                                             monotonic=lambda: time_ns() / 1e9, sleep=lambda s: None)
 
         def uuid4():
             w.rd += 1
@@ -440,7 +442,7 @@ class World:
                 self.bad("deser_fun_mismatch", "decoding function differs from the one stored", f"{buf.deser_fun}")
             data = bytes(buf.view())
             if data != self.pattern(k):
-                self.bad("bytes_mismatch", "bytes read differ from the bytes written under that key", f"get {k}: {data.hex()} vs {self.pattern(k).hex()}")
+                self.bad("bytes_mismatch", "bytes read differ from the bytes written under that key", f"get {k}: first difference at byte {next((i for i, (x, y) in enumerate(zip(data, self.pattern(k))) if x != y), min(len(data), len(self.pattern(k))))} of {len(data)}")
             self.readers.setdefault(k, []).append(buf)
             self.opened[id(buf)] = self.clock
         elif ans == "error" and k in self.ref_known and k in self.ref_written and k not in self.ref_delayed:
